@@ -23,7 +23,7 @@ PROPS = ['C01', 'C03', 'C04', 'C05', 'C06', 'C07', 'C08', 'C10', 'C11', 'C12', '
 def run_worker(prop, seeds, hashseed, tmp, tag):
     sf = os.path.join(tmp, 'seeds-%s-%s.json' % (prop, tag))
     of = os.path.join(tmp, 'out-%s-%s.jsonl' % (prop, tag))
-    json.dump(seeds, open(sf, 'w'))
+    json.dump(seeds, open(sf, 'w', encoding='utf-8'))
     env = dict(os.environ)
     env['PYTHONHASHSEED'] = hashseed
     env['VERIF_DIGEST_STATE'] = '1'
@@ -37,7 +37,7 @@ def run_worker(prop, seeds, hashseed, tmp, tag):
 def collect(of):
     out = {}
     if os.path.exists(of):
-        for line in open(of):
+        for line in open(of, encoding='utf-8'):
             if line.strip():
                 r = json.loads(line)
                 out[r['seed']] = (r['digest'], (r.get('violation') or {}).get('signature'),
@@ -93,7 +93,7 @@ def sensitivity(ids):
         meta = {}
         mp = os.path.join(seeded, i, 'meta.json')
         if os.path.exists(mp):
-            meta = json.load(open(mp))
+            meta = json.load(open(mp, encoding='utf-8'))
         if meta.get('status') == 'neutralised':
             print('%s skipped: %s' % (i, meta.get('note', 'neutralised')))
             continue
